@@ -225,6 +225,10 @@ func judgeStyleValue(v *spec.View, el, style string) (sig, what string) {
 	for _, d := range decls {
 		prop := dePrefix(obs.CSSDecode(d.prop))
 		rules := v.StyleRules(el, prop)
+		// a rule registered under a name that itself carries a vendor prefix covers exactly that name
+		if full := obs.ASCIILower(obs.CSSDecode(d.prop)); full != prop {
+			rules = append(rules, v.StyleRules(el, full)...)
+		}
 		if len(rules) == 0 {
 			return "property", fmt.Sprintf("declaration %s kept on <%s> although property %q is not allowlisted", run.Q(d.prop+": "+d.val), el, prop)
 		}
@@ -264,6 +268,18 @@ func expectedStyle(v *spec.View, el string, decls []cssDecl) string {
 			}
 		}
 		rules = append(rules, v.GlobStyle[prop]...)
+		if full := obs.ASCIILower(d.prop); full != prop {
+			if len(v.ElemStyle[el]) > 0 {
+				rules = append(rules, v.ElemStyle[el][full]...)
+			} else {
+				for _, ps := range v.PatStyle {
+					if ps.Re.MatchString(el) {
+						rules = append(rules, ps.Styles[full]...)
+					}
+				}
+			}
+			rules = append(rules, v.GlobStyle[full]...)
+		}
 		val := obs.ASCIILower(d.val)
 		for _, r := range rules {
 			if styleRuleAccepts(r, val) {
@@ -370,6 +386,10 @@ func c10Specs() []built {
 		// a matcher that accepts everything except some constructs: what it judges must be what a browser reads
 		spec.Spec{Name: "c10-excluding-handler", Base: "new", Calls: []C{els("p", "span"), {Op: "AllowElementsMatching", Re: reMy},
 			{Op: "AllowStyles", Names: []string{"color", "font-family", "background"}, Handler: "no-url", Scope: "global"}}},
+		// rules registered under names that carry a vendor prefix themselves
+		spec.Spec{Name: "c10-prefixed-rule-key", Base: "new", Calls: []C{els("p", "span"), {Op: "AllowElementsMatching", Re: reMy},
+			{Op: "AllowStyles", Names: []string{"-webkit-color", "mso-color"}, Enum: []string{"green", "red"}, Scope: "global"},
+			{Op: "AllowStyles", Names: []string{"-webkit-color"}, Enum: []string{"blue"}, Scope: "on", On: []string{"p"}}}},
 		// a handler that accepts everything: what survives must still be, for a browser, only the declarations it judged
 		spec.Spec{Name: "c10-accept-all-handler", Base: "new", Calls: []C{els("p", "span"), {Op: "AllowElementsMatching", Re: reMy},
 			{Op: "AllowStyles", Names: []string{"color", "font-family", "background"}, Handler: "always", Scope: "global"}}},
